@@ -76,4 +76,24 @@ def weightOf (seed wmod : Nat) (t asset : Int) (act : Nat) (prio : Int) : Nat :=
   ((seed * 7919 + t.toNat * 40503 + (asset + 7).toNat * 9973 + act * 101 + prio.toNat * 17)
     % 1000003) % wmod
 
+/-- Kinds of errors an operation can report (the Python exception class). -/
+inductive Err where
+  | value | key | attribute | runtime | assertion | index | type_ | notImplemented | other
+deriving Repr, DecidableEq, Inhabited
+
+/-- Result of a scripted operation / an entry of the scenario's action log. -/
+inductive Res where
+  | ok
+  | err (e : Err)
+  | bool (b : Bool)
+  | none_
+  | some_
+  | cb (k : Nat)                          -- resource callback `k` invoked (with the right arguments)
+  | hook (start : Bool) (tgt : Nat) (tag : Int)   -- Maintainable.start_work / end_work
+  | act (s obj : Nat) (now : Int) (state : Int) (ovr : Option Nat)  -- ActionScheduler action
+  | sense (s : Nat) (cbk : Nat) (now : Int) (vals : List Int)       -- on_sense callback
+  | shut (d : Nat) (k : Nat) (isFail : Bool) (lost : Option Nat)    -- shutdown callback
+  | restored (d : Nat) (k : Nat)                                    -- restored callback
+deriving Repr, DecidableEq, Inhabited
+
 end SimProc
